@@ -238,6 +238,26 @@ def with_delins(r, y):
     return yaml.safe_dump(doc, sort_keys=False, default_flow_style=None)
 
 
+def with_random(r, y):
+    """the same database plus a `random:` section: catalogued variants that belong to no allele (as in CFTR, GSTM1, GSTP1),
+    one or two of them function-altering"""
+    doc = yaml.safe_load(y)
+    seq = doc["reference"]["seq"]
+    L = len(seq)
+    used = {e[0] + k for a in doc["alleles"].values() if isinstance(a, dict) for e in a["mutations"] if isinstance(e[0], int) for k in range(-3, 5)}
+    lo = L // 2 + 2 if len(doc["structure"]["genes"]) > 1 else 3
+    cand = [p for p in range(lo, L - 8) if p not in used]
+    if len(cand) < 3:
+        return y
+    ents = []
+    for k, p in enumerate(r.sample(cand, 3)):
+        ref = seq[p - 1]
+        alt = r.choice([b for b in "ACGT" if b != ref])
+        ents.append([p, f"{ref}>{alt}", f"rs{9000 + k}"] + (["functional"] if k < 2 else []))
+    doc["alleles"]["random"] = ents
+    return yaml.safe_dump(doc, sort_keys=False, default_flow_style=None)
+
+
 def with_siblings(r, y):
     """the same database plus sibling minor alleles of the reference allele: one with three silent SNPs, two with a silent
     SNP at ONE position and different alternative bases (a multi-allelic site), two with silent SNPs at further positions"""
